@@ -343,9 +343,7 @@ retry_from_root:
                 return status::OK_SCAN_END;
             }
             // L1+
-            ctx->stack_pop();
-            st = &ctx->stack_top(); // sync alias
-            goto retry_from_root; // NOLINT
+            goto reposition; // NOLINT
         }
         if (!rv.get_root()) {
             // saved-root is now not root. split?
@@ -355,9 +353,23 @@ retry_from_root:
                 ctx->stack_top().layer_root = new_mt_root;
                 goto retry_from_root; // NOLINT
             }
-            ctx->stack_pop();
-            st = &ctx->stack_top(); // sync alias
-            goto next_layer; // NOLINT // or jump to entry point of this function
+            goto reposition; // NOLINT
+        }
+        if (false) { // NOLINT(*-simplify-boolean-expr)
+reposition:
+            /**
+             * The saved root of this (non-first) layer is deleted or is no
+             * longer the root of its layer (it was split). Resuming in the
+             * border of the upper layer would continue behind the link and
+             * skip the rest of this layer: instead position the cursor again
+             * just behind the last delivered key, from the root of the tree.
+             */
+            std::string last_full_key = ctx->full_key();
+            ctx->stack_clear();
+            auto rc = iscan_findfirst(ctx, last_full_key,
+                                      scan_endpoint::EXCLUSIVE, out, bnv_cb);
+            if (rc != status::OK_SCAN_CONTINUE) { return rc; }
+            goto next_layer; // NOLINT
         }
         status check_status{};
         auto border_node_and_v =
